@@ -495,8 +495,6 @@ def pytest_sessionfinish(session, exitstatus):
                     used_changes += changes[flag]
                     approved_flags.add(flag)
 
-            report_problems(console)
-
             if used_changes:
                 cr = ChangeRecorder()
                 apply_all(used_changes, cr)
@@ -524,6 +522,9 @@ def pytest_sessionfinish(session, exitstatus):
                         state().storage.persist(external_name)
 
                 cr.fix_all()
+
+            # after the files are written, to include the problems of this step
+            report_problems(console)
 
             unused_externals = _find_external.unused_externals()
 
